@@ -22,12 +22,12 @@ func init() { harness.Register("C09", "model_checking", runC09) }
 // ---- alphabet -------------------------------------------------------------------------------
 
 type c09Key struct {
-	name string     // canonical model key (numbers by value, so 1 and 1.0 coincide)
-	lv   lua.LValue // the key as handed to the implementation
-	lit  string     // Lua literal ("" if none)
-	kind byte       // 'n' number, 's' string, 'b' bool, 't' table
-	isInt bool
-	i     int
+	name     string     // canonical model key (numbers by value, so 1 and 1.0 coincide)
+	lv       lua.LValue // the key as handed to the implementation
+	lit      string     // Lua literal ("" if none)
+	kind     byte       // 'n' number, 's' string, 'b' bool, 't' table
+	isInt    bool
+	i        int
 	arrayKey bool // lies in the array part (1 <= k < MaxArrayIndex, integral)
 }
 
@@ -98,19 +98,19 @@ func (o c09Op) String(keys []c09Key) string {
 // ---- per-worker implementation driver ---------------------------------------------------------
 
 type c09Worker struct {
-	L       *lua.LState
-	keys    []c09Key
-	fnSet   *lua.LFunction // function(t,k,v) t[k]=v end
-	fnGet   *lua.LFunction
-	fnLen   *lua.LFunction
-	fnRawset, fnRawget *lua.LFunction
-	fnSetC  []*lua.LFunction // per key: constant-key store
-	fnGetC  []*lua.LFunction
+	L                         *lua.LState
+	keys                      []c09Key
+	fnSet                     *lua.LFunction // function(t,k,v) t[k]=v end
+	fnGet                     *lua.LFunction
+	fnLen                     *lua.LFunction
+	fnRawset, fnRawget        *lua.LFunction
+	fnSetC                    []*lua.LFunction // per key: constant-key store
+	fnGetC                    []*lua.LFunction
 	fnPairs, fnNext, fnIpairs *lua.LFunction
-	fnNextMut *lua.LFunction
-	emitted []lua.LValue
-	mutAt   int
-	mutFn   func()
+	fnNextMut                 *lua.LFunction
+	emitted                   []lua.LValue
+	mutAt                     int
+	mutFn                     func()
 }
 
 func newC09Worker() *c09Worker {
